@@ -344,12 +344,23 @@ FormatVerdict(e) ==
               ELSE "ok"
     [] OTHER -> "ok"
 
+Str2Bytes(name) == CASE name = "ToNearestEven" -> <<84,111,78,101,97,114,101,115,116,69,118,101,110>>
+                     [] name = "ToNearestAway" -> <<84,111,78,101,97,114,101,115,116,65,119,97,121>>
+                     [] name = "ToZero" -> <<84,111,90,101,114,111>>
+                     [] name = "AwayFromZero" -> <<65,119,97,121,70,114,111,109,90,101,114,111>>
+                     [] name = "ToNegativeInf" -> <<84,111,78,101,103,97,116,105,118,101,73,110,102>>
+                     [] name = "ToPositiveInf" -> <<84,111,80,111,115,105,116,105,118,101,73,110,102>>
+ModeName(m) == CASE m = 0 -> Str2Bytes("ToNearestEven") [] m = 1 -> Str2Bytes("ToNearestAway") [] m = 2 -> Str2Bytes("ToZero")
+                 [] m = 3 -> Str2Bytes("AwayFromZero") [] m = 4 -> Str2Bytes("ToNegativeInf") [] m = 5 -> Str2Bytes("ToPositiveInf")
+                 [] OTHER -> <<82,111,117,110,100,105,110,103,77,111,100,101,40>> \o Chars(ToDigits(FromInt(m))) \o <<41>>
+
 \* C20 pieces without a value semantics of their own: totality only
 PayloadVerdict(e) == LET x == Decode(e.x) IN IF IsNaN(x) THEN B2S(~Panicked(e)) ELSE B2S(Panicked(e))     \* documented panic
 MiscValueVerdict(e) ==
   CASE e.f = "NaN" -> B2S(Decode(e.r).k = "nan")
     [] e.f = "Inf" -> B2S(Decode(e.r) = InfV(e.sgn < 0))
-    [] e.f = "ModeString" -> B2S(Len(e.s) > 0)
+    [] e.f = "ModeString" -> B2S(e.s = ModeName(e.m))
+    [] e.f \in {"E", "Pi", "Phi"} -> ConstVerdict(e.f, Decode(e.r))
     [] OTHER -> "ok"
 
 RawVerdict(e) ==
